@@ -115,6 +115,35 @@ func c10(r *hx.Run) {
 		emitWorld(r, &w, nil, "struct:"+strings.SplitN(name, ":", 2)[0])
 		crashCase("verify.ExtractChainFromQuote", "struct="+name, func() string { _, err := verify.ExtractChainFromQuote(q); return errStr(err) })
 	})
+	// verify.SupportedTcbLevelsFromCollateral on the state an earlier verification left in the options: the message it is
+	// given is as untrusted as any other (absent sub-messages, byte fields of every length, typed nil, other types)
+	for _, gcFirst := range []bool{true, false} {
+		filled := func() *verify.Options {
+			o := &verify.Options{GetCollateral: gcFirst, CheckRevocations: gcFirst, Getter: &world.Getter{M: base.Getter.M}, TrustedRoots: base.Pool()}
+			if n := base.Spec.Now; n != nil {
+				o.Now = vTimeSet(n)
+			}
+			hx.Guard(func() string { verify.TdxQuote(proto.Clone(base.Quote).(*pb.QuoteV4), o); return "" })
+			return o
+		}
+		structuralMutants(base.Quote, rng, func(name string, q *pb.QuoteV4) {
+			if strings.HasPrefix(name, "num") && !thorough && !strings.HasSuffix(name, ":65536") {
+				return
+			}
+			o := filled()
+			crashCase("verify.SupportedTcbLevelsFromCollateral-after-verify", fmt.Sprintf("collateral=%v struct=%s", gcFirst, name), func() string {
+				_, _, err := verify.SupportedTcbLevelsFromCollateral(q, o)
+				return errStr(err)
+			})
+		})
+		for _, a := range []any{nil, (*pb.QuoteV4)(nil), &pb.QuoteV4{}, "x", &pb.Header{}} {
+			a, o := a, filled()
+			crashCase("verify.SupportedTcbLevelsFromCollateral-after-verify", fmt.Sprintf("collateral=%v arg=%T", gcFirst, a), func() string {
+				_, _, err := verify.SupportedTcbLevelsFromCollateral(a, o)
+				return errStr(err)
+			})
+		}
+	}
 	// arbitrary chain bytes
 	chainOf := func(q *pb.QuoteV4, chain []byte) *pb.QuoteV4 {
 		c := proto.Clone(q).(*pb.QuoteV4)
@@ -192,6 +221,38 @@ func c10(r *hx.Run) {
 				}
 			}
 			emitWorld(r, world.Build(s), nil, "collateral-body:"+which)
+		}
+	}
+	// the "signature" member of an otherwise genuine response (issuer chain, id, version, levels, dates all fine, so that the
+	// signature really is decoded and converted): every length from nothing to far more than the 64 bytes of r||s
+	for _, n := range []int{0, 1, 31, 32, 33, 63, 65, 66, 72, 96, 127, 128, 129, 200, 1024, 70000} {
+		for _, which := range []string{"tcb", "qe"} {
+			for _, how := range []string{"grown", "zeros", "ff"} {
+				n, how := n, how
+				s := honestSpec(rng)
+				s.GC, s.CR, s.Honest, s.Fault = true, rng.IntN(2) == 0, false, fmt.Sprintf("signature-of-%d-bytes(%s)", n, how)
+				mut := func(b []byte) []byte {
+					out := make([]byte, n)
+					switch how {
+					case "grown": // the genuine signature, cut or followed by more bytes
+						copy(out, b)
+						for i := len(b); i < n; i++ {
+							out[i] = byte(i)
+						}
+					case "ff":
+						for i := range out {
+							out[i] = 0xff
+						}
+					}
+					return out
+				}
+				if which == "tcb" {
+					s.TcbResp.SigMut = mut
+				} else {
+					s.QeResp.SigMut = mut
+				}
+				emitWorld(r, world.Build(s), nil, "collateral-signature-length:"+which)
+			}
 		}
 	}
 	for _, mode := range []string{"absent", "two", "three", "empty", "novalues", "nilvalues", "badescape", "wrongtype", "garbageder"} {
